@@ -37,6 +37,7 @@ func cmdRun(args []string) int {
 	maxPaths := fs.Int("max-paths", 0, "")
 	mapAll := fs.Bool("map-order-all", false, "")
 	verbose := fs.Bool("v", false, "")
+	slv := fs.String("solver", "", "z3|z3-new|cvc5|cvc5-int")
 	harness := fs.String("harness", "/verif/harness", "")
 	timeout := fs.Duration("timeout", 10*time.Minute, "")
 	fs.Parse(args)
@@ -64,7 +65,7 @@ func cmdRun(args []string) int {
 		fmt.Fprintln(os.Stderr, err)
 		return 2
 	}
-	rep, err := interp.Explore(p.Prog, entry, interp.Config{MapOrderAll: *mapAll, Bounds: bounds, KnownOpen: map[string]bool{}},
+	rep, err := interp.Explore(p.Prog, entry, interp.Config{SolverKind: *slv, Trace: *verbose, MapOrderAll: *mapAll, Bounds: bounds, KnownOpen: map[string]bool{}},
 		interp.ExploreOpts{Workers: *workers, MaxPaths: *maxPaths, Verbose: *verbose, Deadline: time.Now().Add(*timeout)})
 	if err != nil {
 		fmt.Fprintln(os.Stderr, err)
